@@ -58,7 +58,7 @@ class Prop:
             "(result / exception / cancellation / unsubscribe first, subscription before or after completion); to_future and await on "
             "the deterministic loop over empty / single / many / erroring sequences delivered synchronously or by loop timers; run() "
             "under controlled threads over sources emitting synchronously, on a simulated NewThreadScheduler or EventLoopScheduler, "
-            "with forced pre-emptions; start / to_async on virtual time (function result, exception, two subscribers); from_callback "
+            "with forced pre-emptions; start / to_async on virtual time (function result, exception, two subscribers, a subscriber that leaves before the function ran); from_callback "
             "with 0-4 callback arguments, with and without mapper, callback invoked synchronously or later, subscribed twice. Each is "
             "compared with the contract in the statement. Distinct = (kind, parameters, outcome); non-trivial = all but the pending cases.")
     assumptions = ["from_callback with zero callback arguments may emit [] or None or () (the statement only fixes 'exactly one value, then completion')"]
@@ -81,7 +81,9 @@ class Prop:
             sc.update({"events": events, "via": rng.choice(["sync", "newthread", "eventloop", "default"]), "sched": th.gen_sched(rng, ks=(0, 1, 2, 3))})
         elif kind == "start":
             sc.update({"form": rng.choice(["start", "to_async"]), "raises": rng.random() < 0.25, "value": vt.gen_value(rng, 0.5), "subscribers": rng.choice([1, 2, 2]),
-                       "late": rng.random() < 0.5})
+                       "late": rng.random() < 0.5,
+                       # one more subscriber that subscribes before the scheduler has run the function and unsubscribes at once
+                       "early_leaver": rng.random() < 0.35})
         else:
             sc.update({"nargs": rng.randrange(0, 5), "mapper": rng.choice([None, None, "tuple", "raise"]), "later": rng.random() < 0.4, "func_args": rng.randrange(0, 3),
                        "subscriptions": rng.choice([1, 2, 2])})
@@ -271,6 +273,12 @@ class Prop:
             box["obs"] = rx.start(func, w.s) if sc["form"] == "start" else rx.to_async(func, w.s)(1, 2)
 
         w.at(100, build)
+        leaver = vt.Recorder(w, "leaver", follow=False)
+        if sc.get("early_leaver"):
+            def come_and_go():
+                leaver.subscribe(box["obs"])
+                leaver.dispose()
+            w.at(100, come_and_go)
         for i, r in enumerate(recs):
             w.at((150 if (sc["late"] and i) else 100) + i, (lambda r=r: r.subscribe(box["obs"])))
         w.run(500)
@@ -280,6 +288,8 @@ class Prop:
             out.bad("start", "%s: the function was invoked %d times (expected once)" % (desc, len(calls)))
         if sc["form"] == "to_async" and calls and calls[0] != (1, 2):
             out.bad("start", "%s: the function received arguments %s" % (desc, calls[0]))
+        if leaver.events:
+            out.bad("start", "%s: a subscriber that had unsubscribed before the function ran received %s" % (desc, leaver.kinds()))
         for r in recs:
             got = [(k, vt.vkey(v) if k == "N" else type(v).__name__ if k == "E" else None) for _, _, k, v in r.events]
             want = [("E", "InjectedFault")] if sc["raises"] else [("N", vt.vkey(value)), ("C", None)]
